@@ -294,7 +294,7 @@ def match_tables(g, tb, dg, dump=None):
             elif conf['kind'] == 'sr':
                 exp = ('sr-red', conf['reduces'][0]) if conf['prefer'] == 'reduce' else ('sr-sh', conf['reduces'][0])
             elif conf['kind'] == 'rr': exp = ('rr',)
-            elif conf['kind'] == 'mixed': exp = ('anyconf',)
+            elif conf['kind'] == 'mixed': exp = ('rr',)       # two reductions (plus a shift): the R/R conflict is the one that must be reported
             elif conf['kind'] == 'acc': exp = ('acc-conflict',)
             if exp is None: ok = got is None
             elif exp[0] == 'sh': ok = got is not None and got[0] == 'sh'
